@@ -9,7 +9,7 @@ ID = "C15"
 LEVEL = "fault_enumeration"
 ENGINE = "E1 bounded-exhaustive generation-tree explorer (every single fault at every position)"
 RULE = (
-    "well-formed bases (tempo maps of 1..4 events x event placements before/at/after each tempo tick for 8 event kinds) x every "
+    "well-formed bases (tempo maps of 1..4 events, and long maps of 9..65 events, x event placements before/at/after each tempo tick for 8 event kinds) x every "
     "single corruption at every position (drop/shift tick-0 tempo, drop/shift tick-0 signature, duplicate tempo tick k, swap "
     "tempo lines k/k+1, tempo k := 0, Resolution 0/00) ; then every query tick -3..last+3; distinct = distinct chart text; "
     "non-trivial = the text carries a corruption"
@@ -21,6 +21,7 @@ ASSUMPTIONS = [
 
 TEMPO = ((0, 120000), (10, 90000), (20, 150000), (30, 60000))
 KINDS = ("TS", "text", "section", "lyric", "S", "E", "N", "Nend")
+LONG = (9, 10, 16, 17, 18, 33, 40, 65)  # tempo-map lengths around plausible fast-path thresholds
 
 PROBE_SRC = '''
 def probe(c):
@@ -37,6 +38,19 @@ def probe(c):
             out.append([t, "raises " + type(e).__name__])
     return out
 '''
+NEG_SRC = '''
+def probe(c):
+    be = c.sync_track.bpm_events
+    out = []
+    for f in (be.timestamp_at_tick_no_optimize_return, lambda t: be.timestamp_at_tick(t)[0]):
+        try:
+            out.append(str(f(%d)))
+        except ValueError:
+            out.append("ValueError")
+        except Exception as e:
+            out.append("raises " + type(e).__name__)
+    return out[0] if out[0] == out[1] else out
+'''
 probe = None
 
 
@@ -48,6 +62,7 @@ def setup():
 
 def plan(tier, seed):
     shards = [("corrupt", k) for k in range(1, 5)] + [("zero", k, j) for k in range(1, 5) for j in range(k)] + [("queries",)]
+    shards += [("long", n) for n in LONG]
     return dict(shards=shards, bounds=dict(tempo_events="1..4", event_kinds=list(KINDS), placements="tick-1, tick, tick+1 of each tempo event"), budget_s=300)
 
 
@@ -139,6 +154,35 @@ def run_shard(shard, ctx):
                 got = expect(ctx, text, "tempo %d := 0%s" % (j, "" if kd is None else ", %s event at tick %d" % (kd, t)))
                 if got is not None:
                     _queries(ctx, text, z)
+    elif kind == "long":
+        n = shard[1]
+        b = [(3 * i, 60000 + 1000 * (i % 7)) for i in range(n)]
+        text = chart(b)
+        expect(ctx, text, "none (well-formed base, %d tempo events)" % n, corrupted=False)
+        _queries(ctx, text, b)
+        for t in (-1, -2, -96, -5000, -10**7):
+            got = e1.run_probe(e1.compile_probe(NEG_SRC % t), text)
+            ctx.evaluations += 1
+            if got != "ValueError":
+                e1.report(ctx, "query", text, NEG_SRC % t, ["ValueError"], got, "query for negative tick %d on a tempo map of %d events must raise ValueError" % (t, n))
+        for j in range(n):
+            ctx.node()
+            if j + 1 < n:
+                dup = list(b)
+                dup[j + 1] = (b[j][0], b[j + 1][1])
+                expect(ctx, chart(dup), "tempo tick %d duplicated (map of %d events)" % (b[j][0], n))
+                sw = list(b)
+                sw[j], sw[j + 1] = sw[j + 1], sw[j]
+                expect(ctx, chart(sw), "tempo lines %d and %d swapped (map of %d events)" % (j, j + 1, n))
+            z = list(b)
+            z[j] = (b[j][0], 0)
+            for kd in ("text", "N", "Nend", "TS"):
+                for off in (0, 1):
+                    got = expect(ctx, chart(z, extra=event_lines(kd, b[j][0] + off)), "tempo %d := 0 (map of %d events), %s event at tick %d" % (j, n, kd, b[j][0] + off))
+            if j == n - 1:
+                got = expect(ctx, chart(z), "last tempo := 0 (map of %d events), nothing governed" % n)
+                if got is not None:
+                    _queries(ctx, chart(z), z)
     else:
         for k in range(1, 5):
             text = chart(list(TEMPO[:k]))
